@@ -8,7 +8,7 @@ from ..astutil import up, walk_local, stores, chain, const, calls, paths
 from ..rules import where, path_actions, pickle_state_agreement, getstate_keys
 from ..loader import AnalysisError
 from ..staterules import state_roundtrip
-from ..interp import Interp, Hooks, Arr, Obj, Unk, symarr, num, decide_with, count_atom
+from ..interp import Interp, Hooks, Foreign, Arr, Obj, Unk, ClassRef, symarr, num, decide_with, count_atom
 
 EXPLANATION = (
     "(ALG-19) Source.from_ascii, as index arithmetic in normal form: n = int((len-3)/3) equals n when len = 3(n+1); name, x, y come from columns 0,1,2; "
@@ -189,11 +189,8 @@ def flag2_syntactic(ctx, repo, vs):
             ctx.undecided('FLAG-2', 'accepted flag set', where(vs, pred), 'predicate form %s' % e)
 
 
-def run(ctx):
-    repo = ctx.repo
-    ci = repo.cls('source.source', 'Source')
-    fa = ctx.fn(repo.func('source.source', 'Source.from_ascii'))
-    ta = ctx.fn(repo.func('source.source', 'Source.to_ascii'))
+def from_ascii_symbolic(ctx, repo, ci, fa):
+    """the column views of from_ascii for a symbolic number of filters (reads the assignments of the function as they are written)"""
     line = fa.params[1]
     env = {}
     obj = None
@@ -279,8 +276,197 @@ def run(ctx):
     okk = first_raise is not None and first_raise[1] in tests_ok and any('EOFError' in x for x in first_raise[2]) and not first_raise[3]
     ctx.expect(bool(okk), 'ALG-19', 'fewer than three columns ends the input', where(fa, first_raise[0] if first_raise else None),
                'raises EOFError before any field is parsed', 'guard is %s' % (list(first_raise[1:3]) if first_raise else None,), 'eof-guard')
-    # to_ascii inverse layout: the fields emitted, in source order, whatever way the pieces are joined
+    # ---- CFG-12 (assignment order)
+    ctx.expect(order.index('valid') < order.index('flux') and order.index('valid') < order.index('error') if all(k in order for k in ('valid', 'flux', 'error')) else False,
+               'CFG-12', 'valid assigned before flux and error', where(fa), 'assignment order %s' % order, 'assignment order %s: the length cross-check has nothing to compare with' % order, 'order')
+
+
+class _Tok(Foreign):
+    """token k of the input line: a string that converts to the number tok<k>"""
+    py_types = ('str',)
+
+    def __init__(self, k):
+        self.k = k
+
+    def as_value(self):
+        return Arr((), sym('tok%d' % self.k), unit=num(1))
+
+
+class _Line(Foreign):
+    def __init__(self, n):
+        self.n = n
+
+    def sl_method(self, interp, name, args, kw, node):
+        if name == 'split' and not args:
+            return [_Tok(k) for k in range(self.n)]
+        if name == 'strip':
+            return self
+        return NotImplemented
+
+
+class RealSetters(Hooks):
+    def setter(self, interp, obj, name, val, setter_fi, node):
+        return NotImplemented            # assignments go through the real setters: their length checks are part of what is decided
+
+
+def from_ascii_scenarios(ctx, repo, ci, fa):
+    """Source.from_ascii interpreted on lines of a concrete number of symbolic tokens: 3(n+1) tokens for n = 0..3 must give name, x, y, flags, fluxes and
+    errors from the documented columns; one or two tokens too many must be refused (the setters' length checks see it); fewer than three tokens end the
+    input.  -> True (all decided OK) | False (no verdict) | 'violation'"""
+    verdict = True
+    for ntok in (0, 1, 2, 3, 6, 9, 12, 4, 5, 7, 8, 10, 11, 13):
+        I = Interp(repo, RealSetters())
+        try:
+            r = I.call(fa, [ClassRef(ci), _Line(ntok)])
+        except (AnalysisError, RecursionError) as ex:
+            r = Unk(str(ex)[:100])
+        raised = isinstance(r, Unk) and 'always raises' in r.why
+        where_ = where(fa)
+        if ntok < 3:
+            inst = 'fewer than three columns ends the input (%d column%s)' % (ntok, '' if ntok == 1 else 's')
+            if raised and r.exc == 'EOFError':
+                ctx.ok('ALG-19', inst, where_, 'raises EOFError before any field is parsed')
+            elif raised and r.exc is not None:
+                ctx.violation('ALG-19', inst, where_, 'a line of %d columns raises %s, not the EOFError that ends the input' % (ntok, r.exc), 'eof-guard'); verdict = 'violation'
+            elif isinstance(r, Unk):
+                ctx.undecided('ALG-19', inst, where_, 'not modelled: %r' % (r,)); verdict = verdict and False
+            else:
+                ctx.violation('ALG-19', inst, where_, 'a line of %d columns is parsed into a source' % ntok, 'eof-guard'); verdict = 'violation'
+            continue
+        if ntok % 3:
+            inst = 'a line of %d columns (not 3(n+1)) is refused' % ntok
+            if raised:
+                ctx.ok('CFG-12', inst, where_, 'the flags, fluxes and errors cut from it have different lengths and a setter raises')
+            elif isinstance(r, Unk):
+                ctx.undecided('CFG-12', inst, where_, 'not modelled: %r' % (r,)); verdict = verdict and False
+            else:
+                ctx.violation('CFG-12', inst, where_, 'a line with %d surplus column%s is parsed into a source instead of being refused' % (ntok % 3, '' if ntok % 3 == 1 else 's'), 'bounded-slice')
+                verdict = 'violation'
+            continue
+        n = ntok // 3 - 1
+        inst = 'from_ascii on a line of 3(n+1) columns, n = %d' % n
+        if not isinstance(r, Obj):
+            if raised:
+                ctx.violation('ALG-19', inst, where_, 'a well-formed line of %d columns is refused' % ntok, 'layout'); verdict = 'violation'
+            else:
+                ctx.undecided('ALG-19', inst, where_, 'not modelled: %r' % (r,)); verdict = verdict and False
+            continue
+        problems, unknown = [], []
+        nm = r.attrs.get('_name')
+        if not (isinstance(nm, _Tok) and nm.k == 0):
+            (problems if isinstance(nm, _Tok) else unknown).append('name <- %r' % (nm,))
+        for attr, k in (('_x', 1), ('_y', 2)):
+            v = r.attrs.get(attr)
+            if not (isinstance(v, Arr) and v.ndim == 0 and v.poly == sym('tok%d' % k)):
+                (problems if isinstance(v, Arr) and alg.leaf_syms(v.poly)[0] <= {'tok%d' % q for q in range(ntok)} else unknown).append('%s <- %s' % (attr[1:], alg.show(v.poly, 60) if isinstance(v, Arr) else v))
+        for attr, col in (('_valid', lambda j: 3 + j), ('_flux', lambda j: 3 + n + 2 * j), ('_error', lambda j: 4 + n + 2 * j)):
+            v = r.attrs.get(attr)
+            if not (isinstance(v, Arr) and v.ndim == 1 and v.mask is None):
+                unknown.append('%s is %r' % (attr[1:], v))
+                continue
+            lab = v.dims[0]
+            ln = 1 if lab is None else I.axis_len.get(lab)
+            if ln is None:
+                unknown.append('length of %s' % attr[1:])
+                continue
+            if ln != n:
+                problems.append('%s has %d elements for %d filters' % (attr[1:], ln, n))
+                continue
+            for j in range(n):
+                got = v.poly if lab is None else alg.index_at(v.poly, lab, Poly.const(j))
+                if got != sym('tok%d' % col(j)):
+                    syms_, fns_ = alg.leaf_syms(got)
+                    (problems if syms_ <= {'tok%d' % q for q in range(ntok)} and not fns_ else unknown).append('%s[%d] <- %s, not column %d' % (attr[1:], j, alg.show(got, 60), col(j)))
+        if problems:
+            ctx.violation('ALG-19', inst, where_, '; '.join(problems[:4]), 'layout'); verdict = 'violation'
+        elif unknown:
+            ctx.undecided('ALG-19', inst, where_, '; '.join(unknown[:3])); verdict = verdict and False
+        else:
+            ctx.ok('ALG-19', inst, where_, 'name, x, y <- columns 0..2 ; flags <- the next n ; (flux, error)[j] <- columns 3+n+2j, 4+n+2j')
+    return verdict
+
+
+def run(ctx):
+    from ..roundtrip import CorroborateCtx
+    repo = ctx.repo
+    ci = repo.cls('source.source', 'Source')
+    fa = ctx.fn(repo.func('source.source', 'Source.from_ascii'))
+    ta = ctx.fn(repo.func('source.source', 'Source.to_ascii'))
+    sem = from_ascii_scenarios(ctx, repo, ci, fa)
+    sub = CorroborateCtx(ctx, 'decided by interpretation on lines of 0..13 columns') if sem is True else (
+        SuspectCtx(ctx, 'from_ascii was not decided by interpretation and the symbolic column rule, which reads one layout only, reports') if sem is False else None)
+    if sub is not None:
+        try:
+            from_ascii_symbolic(sub, repo, ci, fa)
+        except AnalysisError as e:
+            sub.undecided('ALG-19', 'symbolic column views of from_ascii', where(fa), 'layout not recognised: %s' % e)
+    to_ascii_rules(ctx, repo, ci, ta)
+    object_rules(ctx, repo, ci)
+
+
+def to_ascii_scenarios(ctx, repo, ci, ta):
+    """Source.to_ascii interpreted on sources of n = 0..3 filters with symbolic contents: the values formatted into the line, in order, must be name, x, y,
+    the n flags, then (flux[j], error[j]) for each filter, separated by blanks, and the name must not be cut (a precision on a string field cuts it).
+    -> True | False (no verdict) | 'violation'"""
     import re as _re
+    from ..interp import Fmt
+    verdict = True
+    where_ = where(ta)
+    W = 'w'
+    for n in (0, 1, 2, 3):
+        I = Interp(repo)
+        I.axis_len[W] = n
+        o = Obj(ci, {'_name': _Tok(0), '_x': Arr((), sym('x'), unit=num(1)), '_y': Arr((), sym('y'), unit=num(1)), '_valid': symarr('valid', (W,), unit=num(1)),
+                     '_flux': symarr('flux', (W,), unit=num(1)), '_error': symarr('err', (W,), unit=num(1))})
+        try:
+            r = I.call(ta, [], selfv=o)
+        except (AnalysisError, RecursionError) as ex:
+            r = Unk(str(ex)[:100])
+        inst = 'to_ascii of a source with %d filter%s' % (n, '' if n == 1 else 's')
+        if isinstance(r, str) and n == 0:
+            r = Fmt(r.replace('%', '%%'), ())
+        if not isinstance(r, Fmt):
+            ctx.undecided('ALG-19', inst, where_, 'line not modelled: %r' % (r,)); verdict = verdict and False
+            continue
+        want = [('name', None), ('x', sym('x')), ('y', sym('y'))] + [('valid[%d]' % j, alg.index_at(sym('valid', W), W, Poly.const(j))) for j in range(n)]
+        for j in range(n):
+            want += [('flux[%d]' % j, alg.index_at(sym('flux', W), W, Poly.const(j))), ('error[%d]' % j, alg.index_at(sym('err', W), W, Poly.const(j)))]
+        got = list(r.values)
+        problems, unknown = [], []
+        if len(got) != len(want):
+            problems.append('%d values are written for %d expected' % (len(got), len(want)))
+        else:
+            for (nm, ref), v in zip(want, got):
+                if ref is None:
+                    if not (isinstance(v, _Tok) and v.k == 0):
+                        problems.append('first field is %r, not the name' % (v,))
+                elif not (isinstance(v, Arr) and v.ndim == 0 and v.poly == ref):
+                    (problems if isinstance(v, Arr) and alg.leaf_syms(v.poly)[0] <= {'x', 'y', 'valid', 'flux', 'err'} else unknown).append('field for %s holds %s' % (nm, alg.show(v.poly, 50) if isinstance(v, Arr) else v))
+        # every field separated from the next by a blank; the name field must not carry a precision below 40 characters
+        pieces = _re.split(r'%[-0-9.]*[a-zA-Z]', r.fmt)
+        if any(not p_.strip() == '' or p_ == '' for p_ in pieces[1:-1]):
+            problems.append('fields are not separated by blanks: %r' % r.fmt[:60])
+        m_ = _re.match(r'\s*%(-?\d*)(?:\.(\d+))?s', r.fmt)
+        if m_ and m_.group(2) is not None and int(m_.group(2)) < 40:
+            problems.append('name field %%%s.%ss cuts names longer than %s characters: formatting and parsing back does not preserve the name' % (m_.group(1), m_.group(2), m_.group(2)))
+        if problems:
+            ctx.violation('ALG-19', inst, where_, '; '.join(problems[:3]), 'to-ascii-layout'); verdict = 'violation'
+        elif unknown:
+            ctx.undecided('ALG-19', inst, where_, '; '.join(unknown[:3])); verdict = verdict and False
+        else:
+            ctx.ok('ALG-19', inst, where_, 'name, x, y ; one flag per filter ; then (flux[j], error[j]) per filter ; blanks between fields ; the name is not cut')
+    return verdict
+
+
+def to_ascii_rules(ctx, repo, ci, ta):
+    from ..roundtrip import CorroborateCtx
+    sem = to_ascii_scenarios(ctx, repo, ci, ta)
+    if sem == 'violation':
+        return
+    ctx = CorroborateCtx(ctx, 'decided by interpretation on sources of 0..3 filters') if sem is True else SuspectCtx(
+        ctx, 'to_ascii was not decided by interpretation and the syntactic rule, which reads one spelling only, reports')
+    import re as _re
+    # to_ascii inverse layout: the fields emitted, in source order, whatever way the pieces are joined
     fmt_calls = [c for c in calls(ta.node) if isinstance(c.func, ast.Attribute) and c.func.attr == 'format' and isinstance(c.func.value, ast.Constant) and isinstance(c.func.value.value, str)]
     fmt_calls.sort(key=lambda c: (c.lineno, c.col_offset))
     me = ta.params[0]
@@ -307,9 +493,9 @@ def run(ctx):
         trunc = _re.search(r'\.(\d+)s?$', nspec)
         ctx.expect(not trunc or int(trunc.group(1)) >= 40, 'ALG-19', 'to_ascii does not truncate the name', where(ta), 'name field %r pads but never cuts' % nspec,
                    'name field %r cuts names longer than %s characters: formatting and parsing back does not preserve the name' % (nspec, trunc.group(1) if trunc else ''), 'name-truncated')
-    # ---- CFG-12
-    ctx.expect(order.index('valid') < order.index('flux') and order.index('valid') < order.index('error') if all(k in order for k in ('valid', 'flux', 'error')) else False,
-               'CFG-12', 'valid assigned before flux and error', where(fa), 'assignment order %s' % order, 'assignment order %s: the length cross-check has nothing to compare with' % order, 'order')
+
+
+def object_rules(ctx, repo, ci):
     # the setters are interpreted on concrete pairs (length offered, length already fixed): they must raise exactly when the two differ,
     # including when the fixed length is 0; tests are decided on their value (helpers and properties inlined), not on their spelling
     LV, LW = 'V', 'w'
